@@ -80,7 +80,8 @@ Qed.
    of the columns (an identity of exact arithmetic: polar(X.M) = polar(X).M for orthogonal M,
    and the column normalisation commutes with signed column permutations). *)
 Definition rot_equivariant (rot : mat -> mat) : Prop :=
-  forall A o shape, is44 A -> In o all48 ->
+  forall A o n0 n1 n2 rest, is44 A -> In o all48 ->
+    let shape := n0 :: n1 :: n2 :: rest in
     rot (mat_mul A (inv_ornt_aff o shape)) = mat_mul (rot A) (lin3 (inv_ornt_aff o shape)).
 
 Lemma all_some_map {A} (l : list A) : all_some (map Some l) = Some l.
@@ -139,8 +140,47 @@ Proof.
     - destruct (Hdiff eq_refl) as [_ Haff]. rewrite Haff.
       assert (H44 : is44 (inv_ornt_aff o shape)) by (apply (all48_inv_aff_ok o Ho n0 n1 n2 rest 0 0 0 [])).
       unfold io_orientation. fold shape. rewrite (is44_ncols _ (is44_mul _ _ HA H44)).
-      rewrite (Heq (i_aff im) o shape HA Ho).
+      pose proof (Heq (i_aff im) o n0 n1 n2 rest HA Ho) as He. cbv zeta in He. fold shape in He. rewrite He.
       apply (all48_canon_ok ident3 Hid atol _ 0 0 0 [] (is33_mul _ _ HR H44) Hdom'). }
   split; [exact Hio1|].
   unfold as_closest_canonical. rewrite Hio1, all_some_map. reflexivity.
+Qed.
+
+(* the contract is satisfiable: for an affine whose linear part is already orthonormal the polar
+   factor is the linear part itself, and "take the linear part" is equivariant *)
+Lemma lin3_mul A M m33 : is44 A -> is44 M -> nth 3 M [] = [0; 0; 0; m33] ->
+  lin3 (mat_mul A M) = mat_mul (lin3 A) (lin3 M).
+Proof.
+  intros [HA HAr] [HM HMr] Hlast.
+  destruct (len4 A HA) as (a & b & c & d & ->). destruct (len4 M HM) as (p & q & r & t & ->).
+  cbn [nth] in Hlast. subst t.
+  inversion HAr as [|? ? Ha H1]; subst. inversion H1 as [|? ? Hb H2]; subst.
+  inversion H2 as [|? ? Hc H3]; subst. inversion H3 as [|? ? Hd _]; subst.
+  inversion HMr as [|? ? Hp G1]; subst. inversion G1 as [|? ? Hq G2]; subst. inversion G2 as [|? ? Hr _]; subst.
+  destruct (len4 a Ha) as (a0 & a1 & a2 & a3 & ->). destruct (len4 b Hb) as (b0 & b1 & b2 & b3 & ->).
+  destruct (len4 c Hc) as (c0 & c1 & c2 & c3 & ->). destruct (len4 d Hd) as (d0 & d1 & d2 & d3 & ->).
+  destruct (len4 p Hp) as (p0 & p1 & p2 & p3 & ->). destruct (len4 q Hq) as (q0 & q1 & q2 & q3 & ->).
+  destruct (len4 r Hr) as (r0 & r1 & r2 & r3 & ->).
+  cbv [lin3 mat_mul map dot mcol nth ncols length seq firstn].
+  repeat (apply (f_equal2 (@cons (list Z))); [list_eq|]); reflexivity.
+Qed.
+
+Lemma all48_last_row : forall o, In o all48 -> forall n0 n1 n2 rest,
+  nth 3 (inv_ornt_aff o (n0 :: n1 :: n2 :: rest)) [] = [0; 0; 0; 1].
+Proof.
+  intros o Ho n0 n1 n2 rest. vm_compute in Ho.
+  repeat (destruct Ho as [<-|Ho];
+    [rewrite inv_ornt_aff_3;
+     repeat match goal with |- context [znth (eye 4) ?p []] =>
+       let r := eval vm_compute in (znth (eye 4) p []) in change (znth (eye 4) p []) with r end;
+     reflexivity|]).
+  contradiction.
+Qed.
+
+Lemma lin3_equivariant : rot_equivariant lin3.
+Proof.
+  intros A o n0 n1 n2 rest HA Ho. cbv zeta.
+  apply (lin3_mul A _ 1 HA).
+  - apply (all48_inv_aff_ok o Ho n0 n1 n2 rest 0 0 0 []).
+  - now apply all48_last_row.
 Qed.
